@@ -112,7 +112,7 @@ def releaseActionMappings (s : State) : State × List Event :=
             pass := s.pass.filter (fun k => !ktr.contains k) },
    ktr.map Event.released)
 
-/-- The `retain` closure at the top of `add_new_mapping`, in pass-through order:
+/-- The `retain` closure of `consume_pass_through_keys` (called twice by `add_new_mapping`), in pass-through order:
 returns (kept pass-through keys, keys moved to `mapped`, events). -/
 def consume (m : Mapping) : List Key → List Key × List Key × List Event
   | [] => ([], [], [])
